@@ -37,6 +37,7 @@ static void judge_success(struct sim *s)
 		s->expect_sess = (uint16_t)s->sock->session_id;
 		s->expect_serial = s->sock->serial_number;
 		s->t_ok = VNOW;
+		s->t_valid = VNOW;
 		s->holds_data = true;
 		s->ever_synced = true;
 		ex->open = false;
@@ -98,6 +99,7 @@ static void judge_success(struct sim *s)
 		s->accept_reset_too = false;
 		s->ever_synced = true;
 		s->t_ok = VNOW;
+		s->t_valid = VNOW;
 		s->holds_data = true;
 		s->expect_reset_after_expiry = false;
 		/* C17: intervals after End of Data */
@@ -138,6 +140,8 @@ static void judge_success(struct sim *s)
 		s->expect_sess = (uint16_t)s->sock->session_id;
 		s->expect_serial = s->sock->serial_number;
 		s->t_ok = VNOW;
+		if (!s->t_valid)
+			s->t_valid = VNOW; /* a first load: there is no earlier truth to measure the age of the data from */
 		s->holds_data = true;
 	}
 	ex->open = false;
@@ -636,8 +640,9 @@ void sim_mon_on_open(struct sim *s)
 		s->mv_fast_reconnect_due = false;
 	}
 	/* C07 */
-	if (s->t_ok && s->holds_data) {
-		time_t age = VNOW - s->t_ok;
+	if (s->t_valid && s->holds_data) {
+		/* age of the data by the reference's account: a response the client wrongly took for a success renews nothing */
+		time_t age = VNOW - s->t_valid;
 
 		CNT("c07/open_checks");
 		if (age > (time_t)s->sock->expire_interval) {
@@ -725,6 +730,7 @@ void sim_after_stop(struct sim *s)
 	cblog_check_against_tables(s, "after-stop");
 	s->holds_data = false;
 	s->t_ok = 0;
+	s->t_valid = 0;
 	s->connected = false;
 }
 
